@@ -22,6 +22,7 @@ drawn YAML style; each text is submitted through the REST controllers
 import inspect
 import json
 import signal
+import os
 import time
 
 from mv import runner
@@ -702,13 +703,89 @@ def replay(path):
     return check_case(f['case'])
 
 
+def fuzz_shard(shard, nshards, seed, tier, opts):
+    """Coverage-guided part (mv/props/c14_fuzz.py): one libFuzzer process
+    per shard for a bounded time; every crash it leaves is decoded back to a
+    text and confirmed through the REST-level check before it counts."""
+    import glob
+    import re
+    import shutil
+    import subprocess
+    import sys
+    from mv import rest
+    st = runner.Stats()
+    try:
+        sys.path.insert(0, '/verif/.deps')
+        import atheris
+    except Exception:
+        st.counters['fuzz_atheris_unavailable'] += 1
+        return {'stats': st.to_dict(), 'failures': []}
+    from mv.props import c14_fuzz
+    art = os.path.join(runner.OUT, '.work', 'c14fuzz', str(shard))
+    shutil.rmtree(art, ignore_errors=True)
+    os.makedirs(art)
+    script = os.path.join(os.path.dirname(os.path.abspath(__file__)),
+                          'c14_fuzz.py')
+    env = dict(os.environ)
+    env['PYTHONPATH'] = '/verif:/verif/.deps' + (
+        ':' + env['PYTHONPATH'] if env.get('PYTHONPATH') else '')
+    cmd = [sys.executable, '-W', 'ignore', script, art,
+           '-max_total_time=%d' % opts.get('fuzz_seconds', 60),
+           '-seed=%d' % (seed * 1000 + shard + 1), '-len_control=0',
+           '-print_final_stats=1']
+    try:
+        p = subprocess.run(cmd, env=env, stdout=subprocess.PIPE,
+                           stderr=subprocess.STDOUT,
+                           timeout=opts.get('fuzz_seconds', 60) + 240)
+        out = p.stdout.decode('utf-8', 'replace')
+    except subprocess.TimeoutExpired as e:
+        out = (e.stdout or b'').decode('utf-8', 'replace')
+        st.counters['fuzz_process_timeout'] += 1
+    m = re.search(r'stat::number_of_executed_units:\s*(\d+)', out)
+    if m:
+        st.counters['fuzz_execs'] += int(m.group(1))
+    m = re.search(r'cov: (\d+) ft: (\d+) corp: (\d+)', out[::-1][::-1])
+    for mm in re.finditer(r'cov: (\d+) ft: (\d+) corp: (\d+)', out):
+        m = mm
+    if m:
+        st.counters['fuzz_cov_sum_over_shards'] += int(m.group(1))
+        st.counters['fuzz_corpus_units'] += int(m.group(3))
+    failures = []
+    crashes = sorted(glob.glob(os.path.join(art, 'crash-*')) +
+                     glob.glob(os.path.join(art, 'timeout-*')))
+    if crashes:
+        rest.boot(auth_enable=False)
+    for c in crashes[:5]:
+        data = open(c, 'rb').read()
+        kind, text, info = c14_fuzz.decode(data, atheris)
+        st.counters['fuzz_crashes_parser_level'] += 1
+        viol = check_text(kind, text, info, None, None)
+        if viol:
+            failures.append({'case': {'kind': kind, 'text': text,
+                                      'src': 'atheris',
+                                      'artifact': os.path.basename(c)},
+                             'violations': viol})
+        else:
+            st.counters['fuzz_crash_not_confirmed_at_rest_level'] += 1
+    st.counters['fuzz_shards'] += 1
+    return {'stats': st.to_dict(), 'failures': failures[:1]}
+
+
 def main(tier, seed):
     t0 = time.time()
     opts = {'examples': common.budget(tier, 150, 6000),
             'time_budget': common.budget(tier, 80, 1500),
-            'shrink_budget': common.budget(tier, 60, 300)}
+            'shrink_budget': common.budget(tier, 60, 300),
+            'fuzz_seconds': common.budget(tier, 0, 240)}
+    if os.environ.get('VERIF_C14_FUZZ_ONLY'):
+        # (development switch: only the coverage-guided part, N seconds)
+        opts['fuzz_seconds'] = int(os.environ['VERIF_C14_FUZZ_ONLY'])
+        opts['examples'] = 2
     results = runner.run_shards('mv.props.c14', 'shard_main', 16, seed, tier,
                                 opts)
+    if opts['fuzz_seconds'] and not any(r['failures'] for r in results):
+        results = results + runner.run_shards(
+            'mv.props.c14', 'fuzz_shard', 16, seed, tier, opts)
     stats = runner.Stats.merge([r['stats'] for r in results])
     herrs = [h for r in results for h in r['harness_errors']]
     failures = sorted([f for r in results for f in r['failures']],
